@@ -698,6 +698,20 @@ func (c *Conn) State() *smtp.VerifState {
 	return c.lastState
 }
 
+// AuthReadErrors counts the reads of a SASL response that failed so far
+// (hook event "authline" with an error).
+func (c *Conn) AuthReadErrors() int {
+	c.mu.Lock()
+	defer c.mu.Unlock()
+	n := 0
+	for _, e := range c.events {
+		if e.Ev == "authline" && len(e.Args) == 2 && e.Args[1] != "<nil>" {
+			n++
+		}
+	}
+	return n
+}
+
 // Events returns (and clears) the hook events recorded so far.
 func (c *Conn) Events() []Event {
 	c.mu.Lock()
